@@ -436,6 +436,129 @@ func (c *cluster) tplStaleTimeoutNow(rt *rapid.T) {
 	c.step(vAct{A: "adv", T: 3000})
 }
 
+func (c *cluster) rf(id uint64) *Raft { return raftOf(c.up(id)) }
+
+func (c *cluster) tplBail() {
+	c.step(vAct{A: "heal"})
+	c.step(vAct{A: "free"})
+	c.step(vAct{A: "adv", T: 3000})
+}
+
+// tplBounce: a node that believes in a live leader refuses its vote, and no time
+// passes in the message-by-message templates: such voters are killed and
+// restarted, after which they know no leader (killed, not shut down: a leader's
+// graceful shutdown waits for read deadlines, i.e. lets virtual time run).
+func (c *cluster) tplBounce(ids ...uint64) {
+	for _, id := range ids {
+		c.step(vAct{A: "crash", N: id, B: true})
+		c.step(vAct{A: "restart", N: id})
+	}
+}
+
+// tplCampaign: fire the node's election timer until it has a term above minTerm
+// and wins through the listed nodes (requests written on connections to previous
+// incarnations are lost: the next election dials again).
+func (c *cluster) tplCampaign(cand uint64, minTerm uint64, among []uint64) {
+	rf := c.rf
+	for k := 0; k < 4 && rf(cand) != nil && rf(cand).state != Leader && !c.failed(); k++ {
+		c.step(vAct{A: "poke", N: cand, S: "main"})
+		if rf(cand) == nil || rf(cand).term <= minTerm {
+			continue
+		}
+		for i := 0; i < 6 && rf(cand) != nil && rf(cand).state == Candidate && !c.failed(); i++ {
+			c.step(vAct{A: "dlvamong", L: among, K: 1})
+		}
+	}
+}
+
+// tplCfgRevert: a lagging voter B receives, in one batch, a committed
+// configuration C2 and an uncommitted one C3 (so its own commit index is still
+// below both); a new leader that never saw C3 then overwrites C3's index. B has
+// to fall back to C2. 5 voters + 1 provisioned node, time (almost) standing still.
+func (c *cluster) tplCfgRevert(rt *rapid.T) {
+	c.step(vAct{A: "free"})
+	c.step(vAct{A: "adv", T: 1500})
+	A := c.anyLeader()
+	if A == 0 || c.blackbox || len(c.downIDs()) > 0 {
+		return
+	}
+	ra := c.rf(A)
+	if ra == nil || ra.configs.Latest.numVoters() != 5 || !ra.configs.IsCommitted() || len(ra.configs.Latest.Nodes) != 5 {
+		return
+	}
+	var flr []uint64
+	var X uint64
+	for _, id := range c.followersOf(A) {
+		if nd, ok := ra.configs.Latest.Nodes[id]; ok && nd.Voter {
+			flr = append(flr, id)
+		} else if !ok && X == 0 {
+			X = id
+		}
+	}
+	if len(flr) != 4 || X == 0 {
+		return
+	}
+	perm := rapid.Permutation(flr).Draw(rt, "roles")
+	B, C, D, E := perm[0], perm[1], perm[2], perm[3]
+	c.stats.class("tpl-cfgrevert")
+	rf, bail := c.rf, c.tplBail
+	c.step(vAct{A: "gate"})
+	c.step(vAct{A: "dlvamong", L: []uint64{A, B, C, D, E}, K: 6}) // quiesce
+	// B's connection is broken, so that it is caught up later in one batch
+	c.step(vAct{A: "cut", N: A, M: B, B: true})
+	rest := []uint64{A, C, D, E, X}
+	c.step(vAct{A: "cfg", N: A, M: X, S: "addnv"})
+	for i := 0; i < 8 && !c.failed() && !(ra.configs.IsCommitted() && ra.configs.Latest.Nodes[X].ID == X); i++ {
+		c.step(vAct{A: "dlvamong", L: rest, K: 1})
+	}
+	if c.failed() || ra.state != Leader || !ra.configs.IsCommitted() || ra.configs.Latest.Nodes[X].ID != X {
+		bail()
+		return
+	}
+	c2 := ra.configs.Latest.Index
+	if rapid.Bool().Draw(rt, "updBetween") {
+		c.step(vAct{A: "upd", N: A, K: 1, T: 8})
+		c.step(vAct{A: "dlvamong", L: rest, K: 3})
+	}
+	// C3: appended by A, seen by nobody but B
+	c.step(vAct{A: "cfg", N: A, M: X, S: "promote"})
+	c3 := ra.configs.Latest.Index
+	if c.failed() || c3 <= c2 || ra.state != Leader {
+		bail()
+		return
+	}
+	c.step(vAct{A: "uncut", N: A, M: B})
+	for i := 0; i < 30 && rf(B) != nil && rf(B).lastLogIndex < c3 && ra.state == Leader && !c.failed(); i++ {
+		c.step(vAct{A: "adv", T: 10}) // the replication's redial back-off
+		c.step(vAct{A: "dlvamong", L: []uint64{A, B}, K: 1})
+	}
+	if c.failed() || rf(B) == nil || rf(B).lastLogIndex != c3 || rf(B).commitIndex >= c2 {
+		bail()
+		return
+	}
+	c.stats.class("tpl-cfgrevert-two-uncommitted-configs")
+	c.step(vAct{A: "cut", N: A, M: B, B: true})
+	// C: leader of a later term through D and E, none of whom has C3
+	c.tplBounce(D, E)
+	if rf(D) == nil || rf(E) == nil {
+		bail()
+		return
+	}
+	c.tplCampaign(C, 0, []uint64{C, D, E})
+	if c.failed() || rf(C) == nil || rf(C).state != Leader || rf(C).lastLogIndex != c3 {
+		bail()
+		return
+	}
+	ct := rf(C).term
+	for i := 0; i < 12 && rf(B) != nil && rf(B).lastLogTerm != ct && !c.failed(); i++ {
+		c.step(vAct{A: "dlvamong", L: []uint64{C, B}, K: 1})
+	}
+	if !c.failed() && rf(B) != nil && rf(B).lastLogTerm == ct {
+		c.stats.class("tpl-cfgrevert-complete")
+	}
+	bail()
+}
+
 // tplFigure8: the schedule of Figure 8 of the Raft paper on 5 voters, driven
 // message by message with virtual time standing still. A (leader, term t)
 // replicates X to B only; E is elected in a later term by C and D and appends
@@ -468,34 +591,7 @@ func (c *cluster) tplFigure8(rt *rapid.T) {
 	perm := rapid.Permutation(flr).Draw(rt, "roles")
 	B, C, D, E := perm[0], perm[1], perm[2], perm[3]
 	c.stats.class("tpl-figure8")
-	bail := func() {
-		c.step(vAct{A: "heal"})
-		c.step(vAct{A: "free"})
-		c.step(vAct{A: "adv", T: 3000})
-	}
-	rf := func(id uint64) *Raft { return raftOf(c.up(id)) }
-	// a node that believes in a live leader refuses its vote (and no time passes
-	// in this template): such voters are killed and restarted, after which they
-	// know no leader (killed, not shut down: nothing here may let time run)
-	bounce := func(ids ...uint64) {
-		for _, id := range ids {
-			c.step(vAct{A: "crash", N: id, B: true})
-			c.step(vAct{A: "restart", N: id})
-		}
-	}
-	// (requests written on connections to previous incarnations are lost: the
-	// next election dials again)
-	campaign := func(cand uint64, minTerm uint64, among []uint64) {
-		for k := 0; k < 4 && rf(cand) != nil && rf(cand).state != Leader && !c.failed(); k++ {
-			c.step(vAct{A: "poke", N: cand, S: "main"})
-			if rf(cand) == nil || rf(cand).term <= minTerm {
-				continue
-			}
-			for i := 0; i < 6 && rf(cand) != nil && rf(cand).state == Candidate && !c.failed(); i++ {
-				c.step(vAct{A: "dlvamong", L: among, K: 1})
-			}
-		}
-	}
+	bail, rf, bounce, campaign := c.tplBail, c.rf, c.tplBounce, c.tplCampaign
 	c.step(vAct{A: "gate"})
 	c.step(vAct{A: "dlvamong", L: []uint64{A, B, C, D, E}, K: 6}) // quiesce
 	x := ra.lastLogIndex + 1
@@ -577,6 +673,7 @@ func (c *cluster) tplFigure8(rt *rapid.T) {
 }
 
 var templates = map[string]func(c *cluster, rt *rapid.T){
+	"cfgrevert":       (*cluster).tplCfgRevert,
 	"figure8":         (*cluster).tplFigure8,
 	"staletimeoutnow": (*cluster).tplStaleTimeoutNow,
 	"divergesnap":  (*cluster).tplDivergeSnap,
